@@ -71,6 +71,20 @@ func genRetry(r *sx.Rng) sx.Tree {
 		}
 		atts = append(atts, sx.T(com, wms, af))
 	}
+	// whether some scripted attempt really succeeds (the base case itself may carry a Committed or watermark error)
+	succeeded = false
+	nparts := base.At(1).Len()
+	for _, a := range atts {
+		ok := a.At(0).Len() == 1 && !a.At(2).Bool() && a.At(1).Len() >= nparts
+		for j := 0; ok && j < nparts; j++ {
+			if a.At(1).At(j).Len() != 2 {
+				ok = false
+			}
+		}
+		if ok {
+			succeeded = true
+		}
+	}
 	cancel := int64(9)
 	if !succeeded || r.Chance(30) {
 		cancel = r.Range(0, int64(natt)-2)
